@@ -364,6 +364,19 @@ def lexFile (bytes : List Nat) : Outcome :=
   | .error w => .overread w
   | .ok t => scan t
 
+/-- the text ends in a newline (what read_file guarantees for a file; temporary buffers of the preprocessor need not) -/
+def EndsLF (l : List Nat) : Prop := l.getLast? = some 10
+
+instance (l : List Nat) : Decidable (EndsLF l) := inferInstanceAs (Decidable (l.getLast? = some 10))
+
+/-- line terminators of the raw bytes as the first two passes see them: "\r\n", lone "\r", "\n" -/
+def terminators : List Nat → Nat
+  | [] => 0
+  | [a] => if a = 13 ∨ a = 10 then 1 else 0
+  | a :: b :: rest =>
+    if a = 13 ∧ b = 10 then 1 + terminators rest
+    else (if a = 13 ∨ a = 10 then 1 else 0) + terminators (b :: rest)
+
 /-- the largest line number a diagnostic about this file can carry: the EOF position of the text -/
 def lastLine (bytes : List Nat) : Nat :=
   match phases bytes with
